@@ -1,4 +1,5 @@
 import Capella.Lemmas.Index
+import Capella.Lemmas.IndexUnique
 
 /-!
 # C03 — UUID and type lookups always agree with the actual model tree
@@ -32,6 +33,24 @@ theorem history_keeps_consistent (ops : List Op) (l l' : Loader)
     (hc : ∀ f ∈ l, Consistent f) (hw : WFRun l ops) (h : run l ops = .ok l') :
     ∀ f ∈ l', Consistent f :=
   run_consistent ops l l' hc hw h
+
+/-- Model-wide uniqueness of ids is an invariant of the protocol too: fresh ids on attach (what
+`generate_uuid` guarantees, C04), nothing else can introduce a second carrier of an id. -/
+theorem history_keeps_ids_unique (ops : List Op) (l l' : Loader)
+    (hu : (allIds l).Nodup) (hw : WFRunU l ops) (h : run l ops = .ok l') : (allIds l').Nodup :=
+  run_unique ops l l' hu hw h
+
+/-- Together: after ANY finite history of well-formed instructions from a consistent state with
+unique ids, every element of every fragment is found by each of its ids, and nothing else is. -/
+theorem after_any_history_lookup_is_exact (ops : List Op) (l l' : Loader)
+    (hc : ∀ f ∈ l, Consistent f) (hu : (allIds l).Nodup)
+    (hw : WFRun l ops) (hwu : WFRunU l ops) (h : run l ops = .ok l') (k : String) :
+    (∀ f ∈ l', ∀ e ∈ f.tree, k ∈ e.ids → lookup l' k = .ok e.nid) ∧
+    (k ∉ allIds l' → lookup l' k = .error .keyError) := by
+  have hc' := run_consistent ops l l' hc hw h
+  have hu' := run_unique ops l l' hu hwu h
+  exact ⟨fun f hf e he hk => lookup_complete l' k (fun f hf => (hc' f hf).1) hu' f hf e he hk,
+         fun hk => Capella.Index.lookup_absent l' k (fun f hf => (hc' f hf).1) hk⟩
 
 /-- Lookup is sound: whatever `by_uuid` returns is an element of a loaded fragment carrying that id. -/
 theorem lookup_returns_tree_element (l : Loader) (k : String) (n : Nat)
